@@ -48,6 +48,19 @@ func freshJSONType() reflect.Type {
 	})
 }
 
+// a type whose fields have marshaling methods on the pointer receiver: what Marshal writes depends on whether the
+// value it was given is addressable, and the codecs for T and *T are built and cached apart
+func freshJSONPtrType() reflect.Type {
+	n := typeCounter.Add(1)
+	return reflect.StructOf([]reflect.StructField{
+		{Name: "F" + strconv.FormatInt(n, 10), Type: reflect.TypeOf(0), Tag: `json:"f"`},
+		{Name: "P", Type: reflect.TypeOf(MPtr{})},
+		{Name: "T", Type: reflect.TypeOf(TMPtr{})},
+		{Name: "Q", Type: reflect.TypeOf([]MPtr{})},
+		{Name: "A", Type: reflect.TypeOf([2]TMPtr{})},
+	})
+}
+
 func freshProtoType() reflect.Type {
 	n := typeCounter.Add(1)
 	inner := reflect.StructOf([]reflect.StructField{{Name: "I" + strconv.FormatInt(n, 10), Type: reflect.TypeOf(int64(0))}})
@@ -131,8 +144,29 @@ func opsFor(round, k int, jt, pt, tt reflect.Type) []c09Op {
 		jdocFold = bytes.ReplaceAll(bytes.ReplaceAll(bytes.ReplaceAll(jdocFold, []byte("TRUE"), []byte("true")), []byte("FALSE"), []byte("false")), []byte("NULL"), []byte("null"))
 	}
 	tokdoc := []byte(fmt.Sprintf(`{"a":[1,{"b":%d},"x"],"c":{"d":[true,null]}}`, k))
+	jpt := freshJSONPtrType()
+	jpv := reflect.New(jpt)
+	jpv.Elem().Field(0).SetInt(int64(k))
+	jpv.Elem().Field(1).Set(reflect.ValueOf(MPtr{k}))
+	jpv.Elem().Field(2).Set(reflect.ValueOf(TMPtr{"t"}))
+	jpv.Elem().Field(3).Set(reflect.ValueOf([]MPtr{{1}, {k}}))
+	jpv.Elem().Field(4).Set(reflect.ValueOf([2]TMPtr{{"a"}, {"b"}}))
+	againstStd := func(x any) string {
+		want, werr := stdjson.Marshal(x)
+		got, err := json.Marshal(x)
+		if (err == nil) != (werr == nil) || !bytes.Equal(got, want) {
+			return fmt.Sprintf("%s|%v instead of %s|%v", got, err, want, werr)
+		}
+		return "stable"
+	}
 	return []c09Op{
 		{"json.Marshal", func() string { b, err := json.Marshal(jv.Interface()); return fmt.Sprintf("%s|%v", b, err) }},
+		// the first use of a type by value and by pointer, in either order or at once (result held = judged on its own, here against encoding/json)
+		{"json.Marshal(by value, fields with pointer-receiver methods; result held)", func() string { return againstStd(jpv.Elem().Interface()) }},
+		{"json.Marshal(by pointer, fields with pointer-receiver methods; result held)", func() string { return againstStd(jpv.Interface()) }},
+		{"json.Marshal(by value inside an interface and a slice; result held)", func() string {
+			return againstStd([]any{jpv.Elem().Interface(), jpv.Interface()})
+		}},
 		{"json.Marshal(64 KiB and more, result held across other calls)", func() string {
 			// the result must stay what it was while this and other goroutines go on encoding: a result
 			// that still shares memory with a pooled encode buffer is overwritten by them
